@@ -1,6 +1,6 @@
 """run specification for C13 (loaded by lib/specs.py)"""
 
-_AMMO = {"quick": 3000, "thorough": 320000, "shards_quick": 2, "shards_thorough": 16, "timeout": 2400, "mem_gb": 4}
+_AMMO = {"quick": 3000, "thorough": 200000, "shards_quick": 2, "shards_thorough": 16, "timeout": 2400, "mem_gb": 4}
 
 SPEC = {
     "pkg": "c13",
@@ -10,9 +10,9 @@ SPEC = {
         dict(_AMMO, name="TestF3Raw"),
         dict(_AMMO, name="TestF4HTTPJSON"),
         dict(_AMMO, name="TestF5GrpcJSON"),
-        {"name": "TestF6Scenario", "quick": 3000, "thorough": 240000, "shards_quick": 3, "shards_thorough": 16, "timeout": 2400, "mem_gb": 4},
-        {"name": "TestF7Config", "quick": 2400, "thorough": 160000, "shards_quick": 2, "shards_thorough": 16, "timeout": 2400, "mem_gb": 4},
-        {"name": "TestF8Parsers", "quick": 6000, "thorough": 600000, "shards_quick": 1, "shards_thorough": 16, "timeout": 2400, "mem_gb": 4},
+        {"name": "TestF6Scenario", "quick": 3000, "thorough": 120000, "shards_quick": 3, "shards_thorough": 16, "timeout": 2400, "mem_gb": 4},
+        {"name": "TestF7Config", "quick": 2400, "thorough": 80000, "shards_quick": 2, "shards_thorough": 16, "timeout": 2400, "mem_gb": 4},
+        {"name": "TestF8Parsers", "quick": 6000, "thorough": 400000, "shards_quick": 1, "shards_thorough": 16, "timeout": 2400, "mem_gb": 4},
         {"name": "TestWitnesses", "quick": 1, "thorough": 1, "shards": 1, "timeout": 300, "mem_gb": 4},
     ],
     # native coverage-guided campaigns (thorough tier only; wired by the driver): the semantic oracle is inside f.Fuzz,
@@ -54,7 +54,7 @@ SPEC = {
                       "metamorphic valid-prefix and must-reject relations; the same oracles run inside native Go fuzz targets (thorough tier)"),
         "text": ("For every generated input: no panic anywhere on the path construction -> Run -> Acquire -> (for scenarios) the "
                  "preprocessor/templater/postprocessor calls the gun makes; every call returns within 5 s (>= 1000x normal; reported only "
-                 "if it hangs again on an immediate re-run, with goroutine stacks); at most 512 MB allocated in total for one input (the "
+                 "if it hangs again on an immediate re-run, with goroutine stacks); at most 256 MB (parsers: 512 MB) allocated in total for one input (the "
                  "worker additionally runs under ulimit -v 4 GB); never more entries than limit, never more than the file can hold per "
                  "pass; every delivered entry is well-formed. Metamorphic: with garbage G after a valid file V the first |V| entries "
                  "delivered are exactly V's (method, URI, body, tag, Host, headers), and when G is malformed by the format's documentation "
@@ -62,9 +62,10 @@ SPEC = {
                  "delivers the good lines of every pass, marks the bad one invalid and returns nil. Structured scenario mutations and "
                  "unresolvable config placeholders that are malformed by construction must be rejected with an error."),
         "note": ("Listed known findings are steered around by construction and excused only by symptom (the panicking / spinning frame); "
-                 "their fixed witnesses run in TestWitnesses. Numbers of >= 10 digits in ammo files are first replaced by 2^30 (a probe the "
-                 "allocation meter can report) because an absurd allocation kills the worker; scenario numbers are capped at 3e6 / 1e8 for "
-                 "the same reason."),
+                 "their fixed witnesses run in TestWitnesses. Inputs holding a number of >= 9 digits are first judged with it replaced by 3e8 (ammo), 1e8 "
+                 "(parsers) or 3e6 (config): a probe the allocation meter can report, because an absurd allocation kills the worker "
+                 "(about 1 GB of headroom under ulimit -v 4 GB); generated scenario counts / weights are capped at 1e6 / 4e7 for the same "
+                 "reason. The allocation ceiling is 256 MB for ammo, scenario and config inputs and 512 MB for the parsers."),
     },
     "assumptions": [
         "a scenario step is dry-shot (preprocessor, templater, postprocessors against a canned response) instead of sent to a target: no network, no sleeps",
@@ -73,8 +74,3 @@ SPEC = {
     ],
 }
 
-# DEV-ONLY (removed before hand-over): judge with a private known-findings list
-import os as _os
-if _os.environ.get("C13_DEV_KNOWN"):
-    for _t in SPEC["tests"]:
-        _t["env"] = {"VERIF_KNOWN": _os.environ["C13_DEV_KNOWN"]}
